@@ -11,9 +11,28 @@ import IsoVerif.Lemmas.Lists
 import IsoVerif.Lemmas.Jaccard
 import IsoVerif.Lemmas.Merge
 import IsoVerif.Lemmas.BinSearchRev
+import IsoVerif.Lemmas.Positions
 
 namespace IsoVerif.Props.C19Lists
 open IsoVerif.Gen IsoVerif.Model IsoVerif.Lemmas
+
+/-! ### grounding in sets of positions
+`countWin f lo n` is the number of positions `p ∈ [lo, lo+n)` with `f p`; `covb l p` decides whether `p` is covered by `l`.
+Inside any window containing the lists, total length = |A| and `inter` = |A ∩ B|. -/
+
+theorem total_length_counts_positions (l : List Iv) (lo : Int) (n : Nat) (h : SD l) (w : WFl l)
+    (hwin : ∀ r ∈ l, lo ≤ r.1 ∧ r.2 < lo + n) :
+    intervalsTotalLength l = (countWin (covb l) lo n : Int) :=
+  total_length_counts l lo n h w hwin
+
+theorem inter_counts_positions (l1 l2 : List Iv) (lo : Int) (n : Nat) (h1 : SD l1) (h2 : SD l2) (w1 : WFl l1) (w2 : WFl l2)
+    (hwin : ∀ r ∈ l1, lo ≤ r.1 ∧ r.2 < lo + n) :
+    inter l1 l2 = (countWin (fun p => covb l1 p && covb l2 p) lo n : Int) :=
+  inter_counts l1 l2 lo n h1 h2 w1 w2 hwin
+
+theorem covb_iff_cov (l : List Iv) (p : Int) : covb l p = true ↔ cov l p := covb_iff l p
+
+example : intervalsTotalLength [(2, 4), (7, 7)] = (countWin (covb [(2, 4), (7, 7)]) 0 10 : Int) := by decide
 
 /-! ### total length, coverage sweep -/
 
